@@ -1,4 +1,6 @@
 import Pike.Lemmas.LRU
+import Pike.Lemmas.LRURefine
+import Pike.Model.Sys
 import Pike.Facts
 /-
 C11 — resident cache entries never exceed the configured size.
@@ -95,6 +97,100 @@ theorem unclamped_variant_violates :
     (sizes 7).2 = 0
     ∧ resident (run (fun _ => 0) (init 8 0) [.get "a".toList, .get "b".toList, .get "c".toList]) = 3 := by
   decide
+
+/-- simulation relation between the sharded LRU and the shard map of the concurrent model -/
+def Sim (hash : Str → Nat) (enc : Str → Key) (d : Disp) (s : Sys.State) : Prop :=
+  (∀ k, s.shard (enc k) = (absMap hash d k).map Eid.mk) ∧ s.next = d.next
+
+/-- the creating branch of `Sys.step (.lookup t)` -/
+def created (s0 : Sys.State) (t : Tid) (k : Key) : Sys.State :=
+  { s0 with next := s0.next + 1, entries := Sys.upd s0.entries ⟨s0.next⟩ { key := k },
+            shard := Sys.upd s0.shard k (some ⟨s0.next⟩), pc := Sys.upd s0.pc t (.looked ⟨s0.next⟩) }
+
+/-- REFINEMENT.  Whatever the dispatcher does on a lookup — reuse the resident entry, or create a
+new one and evict the shard's least recently used key — the concurrent model `Sys` can do with
+`drop` (for the victim, if any) followed by `lookup`; the thread ends up holding the same entry id
+and the two shard maps stay related.  So every theorem proved over `Sys` for arbitrary `drop`s
+(C01, C02, C04, C08, C10, C18, C20) covers the real eviction order. -/
+theorem lookup_simulated {reread : Bool} {hash : Str → Nat} {enc : Str → Key} (henc : ∀ a b, enc a = enc b → a = b)
+    {d : Disp} {s : Sys.State} (hi : Inv d) (hp : Placed hash d) (hs : Sim hash enc d s)
+    (t : Tid) (k : Str) (hpc : s.pc t = .arrived (enc k)) :
+    ∃ s1 s2, (s1 = s ∨ ∃ v, Sys.step reread s (.drop (enc v)) = some s1)
+      ∧ Sys.step reread s1 (.lookup t) = some s2
+      ∧ s2.pc t = .looked ⟨(lookup d (hash k % d.zones) k).2.1⟩
+      ∧ Sim hash enc (lookup d (hash k % d.zones) k).1 s2 := by
+  cases hf : find (d.shards (hash k % d.zones)) k with
+  | some it =>
+    obtain ⟨h1, h2⟩ := lookup_resident_refines hi k it hf
+    have hsk : s.shard (enc k) = some ⟨it.eid⟩ := by rw [hs.1 k]; simp [absMap, hf]
+    refine ⟨s, { s with pc := Sys.upd s.pc t (.looked ⟨it.eid⟩) }, Or.inl rfl, ?_, ?_, ?_⟩
+    · simp [Sys.step, hpc, hsk]
+    · simp [h2]
+    · refine ⟨fun k' => ?_, ?_⟩
+      · rw [h1]; exact hs.1 k'
+      · simp only [hs.2]; unfold lookup; simp [hf]
+  | none =>
+    obtain ⟨h1, h2⟩ := lookup_miss_refines hi hp k hf
+    have hsk : s.shard (enc k) = none := by rw [hs.1 k]; simp [absMap, hf]
+    have hnext : (lookup d (hash k % d.zones) k).1.next = d.next + 1 := by unfold lookup; simp [hf]
+    cases hv : victim d.cap (d.shards (hash k % d.zones)) ⟨k, d.next, d.clock⟩ with
+    | none =>
+      rw [hv] at h1
+      refine ⟨s, created s t (enc k), Or.inl rfl, ?_, ?_, ?_⟩
+      · simp only [Sys.step, hpc, hsk]; rfl
+      · simp [created, h2, hs.2]
+      · refine ⟨fun k' => ?_, by simp [created, hnext, hs.2]⟩
+        rw [h1]
+        by_cases hk : k' = k
+        · subst hk; simp [created, updM, hs.2]
+        · have : enc k' ≠ enc k := fun e => hk (henc _ _ e)
+          simp [created, updM, hk, Sys.upd_other _ _ _ _ this, hs.1 k']
+    | some v =>
+      rw [hv] at h1
+      have hvk : v.key ≠ k := by
+        intro e
+        unfold victim at hv
+        simp only at hv
+        split at hv
+        · have hvm := List.mem_of_getLast? hv
+          cases hsd : d.shards (hash k % d.zones) with
+          | nil => rename_i hc; simp [hsd] at hc
+          | cons b r =>
+            rw [hsd, List.getLast?_cons_cons] at hv
+            have : v ∈ d.shards (hash k % d.zones) := hsd ▸ List.mem_of_getLast? hv
+            exact find_none hf (List.mem_map.mpr ⟨v, this, e⟩)
+        · simp at hv
+      have hne : enc k ≠ enc v.key := fun e => hvk (henc _ _ e).symm
+      refine ⟨{ s with shard := Sys.upd s.shard (enc v.key) none },
+        created { s with shard := Sys.upd s.shard (enc v.key) none } t (enc k), Or.inr ⟨v.key, rfl⟩, ?_, ?_, ?_⟩
+      · simp only [Sys.step, hpc, Sys.upd_other _ _ _ _ hne, hsk]; rfl
+      · simp [created, h2, hs.2]
+      · refine ⟨fun k' => ?_, by simp [created, hnext, hs.2]⟩
+        rw [h1]
+        by_cases hk : k' = k
+        · subst hk; simp [created, updM, hs.2]
+        · have h1' : enc k' ≠ enc k := fun e => hk (henc _ _ e)
+          simp only [created, updM, hk, if_false, Sys.upd_other _ _ _ _ h1']
+          by_cases hkv : k' = v.key
+          · subst hkv; simp
+          · have h2' : enc k' ≠ enc v.key := fun e => hkv (henc _ _ e)
+            simp [hkv, Sys.upd_other _ _ _ _ h2', hs.1 k']
+
+/-- ... and a purge of the dispatcher is the model's `purge` on the shard map -/
+theorem purge_simulated {reread : Bool} {hash : Str → Nat} {enc : Str → Key} (henc : ∀ a b, enc a = enc b → a = b)
+    {d : Disp} {s : Sys.State} (hs : Sim hash enc d s) (k : Str) (del : Bool) :
+    ∃ s', Sys.step reread s (.purge (enc k) del) = some s' ∧ Sim hash enc (remove d (hash k % d.zones) k) s' := by
+  refine ⟨_, rfl, fun k' => ?_, by simpa [remove] using hs.2⟩
+  rw [remove_refines]
+  by_cases hk : k' = k
+  · subst hk; simp [updM]
+  · have : enc k' ≠ enc k := fun e => hk (henc _ _ e)
+    simp [updM, hk, Sys.upd_other _ _ _ _ this, hs.1 k']
+
+/-- the hypotheses of the refinement hold in every reachable dispatcher state -/
+theorem refinement_hyps_reachable (hash : Str → Nat) (S : Int) (ops : List Op) :
+    Inv (run hash (ofSize S) ops) ∧ Placed hash (run hash (ofSize S) ops) :=
+  ⟨inv_run hash (inv_init _ _) ops, placed_run hash (placed_init hash _ _) ops⟩
 
 end C11
 end Pike
